@@ -14,6 +14,7 @@ import (
 	"math/big"
 	"os"
 	"path/filepath"
+	"reflect"
 	"regexp"
 	"sort"
 	"strconv"
@@ -24,6 +25,7 @@ import (
 	"github.com/ovh/kmip-go/kmiptest"
 	"github.com/ovh/kmip-go/ttlv"
 
+	"verifharness/internal/gv"
 	"verifharness/internal/h"
 )
 
@@ -198,7 +200,11 @@ func c04SemDiff(a, b *c04X, path string) string {
 				nb = append(nb, k.Name)
 			}
 			if z := c04ZeroDropped(a, b); z != "" {
-				return fmt.Sprintf("%s: zero-valued %s was dropped: children [%s] became [%s]", here, z, strings.Join(na, " "), strings.Join(nb, " "))
+				if c04OmitValueField(a, z) {
+					return fmt.Sprintf("%s: zero-valued %s was dropped: children [%s] became [%s]", here, z, strings.Join(na, " "), strings.Join(nb, " "))
+				}
+				// not an `omitempty` value field (e.g. a pointer field, where absent and zero ARE distinguishable)
+				return fmt.Sprintf("%s: zero-valued non-omitempty %s/%s was dropped: children [%s] became [%s]", here, a.Name, z, strings.Join(na, " "), strings.Join(nb, " "))
 			}
 			return fmt.Sprintf("%s: children [%s] became [%s]", here, strings.Join(na, " "), strings.Join(nb, " "))
 		}
@@ -370,9 +376,47 @@ func c04ZeroDropped(a, b *c04X) string {
 	return ""
 }
 
+// c04OmitValueField: is element `elem` of parent element `a` an `omitempty` field of a NON-pointer
+// type in some library struct written under the parent's tag?  Only those fields conflate
+// "absent" with "zero" (the recorded known finding); any other dropped element is a new violation.
+func c04OmitValueField(a *c04X, elem string) bool {
+	ptag, ok := c04ElemTag(a)
+	if !ok {
+		return false
+	}
+	var etag int
+	found := false
+	for _, k := range a.Kids {
+		if k.Name == elem {
+			etag, found = c04ElemTag(k)
+			break
+		}
+	}
+	if !found {
+		return false
+	}
+	for _, t := range gv.U().Structs {
+		tt := ttlv.VerifTagForType(t)
+		isItem := (t.Name() == "RequestBatchItem" || t.Name() == "ResponseBatchItem") && ptag == kmip.TagBatchItem
+		isPayload := strings.HasSuffix(t.Name(), "Payload") && (ptag == kmip.TagRequestPayload || ptag == kmip.TagResponsePayload)
+		if tt != ptag && !isItem && !isPayload {
+			continue
+		}
+		for _, f := range gv.Fields(t) {
+			if f.Plan.Tag == etag && f.Plan.OmitEmpty && f.SF.Type.Kind() != reflect.Pointer {
+				return true
+			}
+		}
+	}
+	return false
+}
+
 // the input class of a difference, for the failure signature
 func c04DiffClass(d string) string {
 	switch {
+	case strings.Contains(d, ": zero-valued non-omitempty "):
+		i := strings.Index(d, ": zero-valued non-omitempty ") + len(": zero-valued non-omitempty ")
+		return "zero-valued-element-dropped:" + strings.Fields(d[i:])[0]
 	case strings.Contains(d, ": zero-valued "):
 		return "zero-valued-optional-element-dropped"
 	case strings.Contains(d, "children ["):
@@ -567,12 +611,12 @@ func c04VectorVariations(c *h.Ctx, g *c04Gen, x *c04X, vc c04VecCase) {
 // message structure, sections 2 and 3 for objects and attributes): dropping anything else gives a
 // non-conformant message, which the property does not speak about.
 var c04OptionalIn = map[string]map[string]bool{
-	"RequestHeader":  {"MaximumResponseSize": true, "ClientCorrelationValue": true, "ServerCorrelationValue": true, "AsynchronousIndicator": true, "AttestationCapableIndicator": true, "AttestationType": true, "Authentication": true, "BatchErrorContinuationOption": true, "BatchOrderOption": true, "TimeStamp": true},
-	"ResponseHeader": {"Nonce": true, "AttestationType": true, "ClientCorrelationValue": true, "ServerCorrelationValue": true},
-	"BatchItem":      {"UniqueBatchItemID": true, "ResultMessage": true, "MessageExtension": true},
-	"Attribute":      {"AttributeIndex": true},
-	"KeyBlock":       {"KeyCompressionType": true, "CryptographicAlgorithm": true, "CryptographicLength": true, "KeyWrappingData": true},
-	"KeyValue":       {"Attribute": true},
+	"RequestHeader":               {"MaximumResponseSize": true, "ClientCorrelationValue": true, "ServerCorrelationValue": true, "AsynchronousIndicator": true, "AttestationCapableIndicator": true, "AttestationType": true, "Authentication": true, "BatchErrorContinuationOption": true, "BatchOrderOption": true, "TimeStamp": true},
+	"ResponseHeader":              {"Nonce": true, "AttestationType": true, "ClientCorrelationValue": true, "ServerCorrelationValue": true},
+	"BatchItem":                   {"UniqueBatchItemID": true, "ResultMessage": true, "MessageExtension": true},
+	"Attribute":                   {"AttributeIndex": true},
+	"KeyBlock":                    {"KeyCompressionType": true, "CryptographicAlgorithm": true, "CryptographicLength": true, "KeyWrappingData": true},
+	"KeyValue":                    {"Attribute": true},
 	"TemplateAttribute":           {"Name": true, "Attribute": true},
 	"CommonTemplateAttribute":     {"Name": true, "Attribute": true},
 	"PrivateKeyTemplateAttribute": {"Name": true, "Attribute": true},
